@@ -161,6 +161,9 @@ def equal_weight_opt(c):
         n = len(wts)
     opt = EqualWeightPortfolioOptimiser(scale=scale)
     t = c.time('t')
+    other = num_map(c, 'weights_of_an_earlier_call', pgen=lambda r: r.random() < 0.5)
+    c.assume(DOM(other) != heap.EMPTY if c.mode == 'sym' else len(other) > 0)
+    opt(c.time('t_earlier_call'), other)      # an earlier call (another asset set) must not influence this one
     res = opt(t, wts)
     c.ob('keys-are-input-keys', IFF(HAS(res, w), HAS(wts, w)))
     c.ob('every-weight-is-scale-over-n', IMPLIES(HAS(res, w), EQ(VAL(res, w) * n, scale)))
@@ -185,4 +188,5 @@ def DOM_COL(m):
 
 
 canary('equal weight 1/(N+1)', EqualWeightPortfolioOptimiser, '__call__', '1.0 / float(num_assets)', '1.0 / float(num_assets + 1)')(equal_weight_opt)
+canary('equal weight computed on first use only', EqualWeightPortfolioOptimiser, '__call__', 'equal_weight = 1.0 / float(num_assets)', 'equal_weight = getattr(self, "_ew", None) or 1.0 / float(num_assets); self._ew = equal_weight')(equal_weight_opt)
 canary('equal weight ignores scale', EqualWeightPortfolioOptimiser, '__call__', 'self.scale * equal_weight', 'equal_weight')(equal_weight_opt)
